@@ -283,6 +283,15 @@ package evaluator
 //@ axiom forall h Heap, x Val, y Val :: {specEq(h, x, y)} isArr(x) ==> specEq(h, x, y) == (isArr(y) && len(arr(x)) == len(arr(y)) && (forall i Int :: {at(h, arr(x), i)} 0 <= i && i < len(arr(x)) ==> specEq(h, at(h, arr(x), i), at(h, arr(y), i))))
 //@ axiom forall h Heap, x Val, y Val :: {specEq(h, x, y)} isObj(x) ==> specEq(h, x, y) == (isObj(y) && mlen(h, obj(x)) == mlen(h, obj(y)) && (forall k Int :: {mhasKey(h, obj(x), k)} mhasKey(h, obj(x), k) ==> mhasKey(h, obj(y), k) && specEq(h, mgetKey(h, obj(x), k), mgetKey(h, obj(y), k))))
 
+// Algebraic laws of the specified equality (C20), proved from its defining axioms: scalars outright, arrays as the
+// induction step over the nesting depth (the hypothesis speaks about the elements).  d is a dummy induction variable.
+//@ ghost scalarV(v Val) Bool = !isArr(v) && !isObj(v)
+//@ lemma[C20] d: forall d Int, h Heap, x Val, y Val :: {specEq(h, x, y), specEq(h, y, x)} scalarV(x) && scalarV(y) ==> specEq(h, x, y) == specEq(h, y, x)
+//@ lemma[C20] d: forall d Int, h Heap, x Val :: {specEq(h, x, x)} scalarV(x) && !isOther(x) && (isNum(x) ==> numOk(x) && !decIsNaN(numDec(x))) ==> specEq(h, x, x)
+//@ lemma[C20] d: forall d Int, h Heap, x Val, y Val, z Val :: {specEq(h, x, y), specEq(h, y, z)} scalarV(x) && scalarV(y) && scalarV(z) && specEq(h, x, y) && specEq(h, y, z) ==> specEq(h, x, z)
+//@ lemma[C20] d: forall d Int, h Heap, x Val, y Val :: {specEq(h, x, y), specEq(h, y, x)} isArr(x) && isArr(y) && (forall i Int :: {at(h, arr(x), i)} 0 <= i && i < len(arr(x)) ==> specEq(h, at(h, arr(x), i), at(h, arr(y), i)) == specEq(h, at(h, arr(y), i), at(h, arr(x), i))) ==> specEq(h, x, y) == specEq(h, y, x)
+//@ lemma[C20] d: forall d Int, h Heap, x Val, y Val :: {specEq(h, x, y)} (isArr(x) && !isArr(y)) || (isObj(x) && !isObj(y)) || (scalarV(x) && !scalarV(y)) ==> !specEq(h, x, y) && !specEq(h, y, x)
+
 //@ func equal
 //@   tags C20 C14 C05 C01
 //@   ensures spec: result == specEq(heap, x, y)
